@@ -20,7 +20,13 @@ use zcash_pool_migration::engine::{
     MigrationState, MigrationStatus, MigrationTransaction, MigrationTransferId, MigrationTxKind, MigrationTxState,
     PoolMigrationRead, PoolMigrationWrite, ProvedTransaction,
 };
+use zcash_pool_migration::build::AccountDerivation;
+use zcash_pool_migration::engine::{
+    rebuild_expired_transfer, rebuild_expired_transfer_unsigned, MigrationBackend, MigrationCrypto, RebuildError,
+};
 use zcash_pool_migration::preparation::PreparationPlan;
+use zcash_pool_migration_memory::{regtest_network, spending_key, CommitMock};
+use rand_core::SeedableRng;
 use zcash_pool_migration::satisfiability::{
     advance_migration, AdvanceConfig, DuenessTargets, ReorgSettleDepth, ReplanThreshold, StepSatisfiability,
 };
@@ -628,6 +634,206 @@ fn gen_shift_sequence(r: &mut Rng, oc: bool, st: &mut Stats) {
     let _ = served;
 }
 
+
+// ---- rebuilds of expired transfers (engine.rs rebuild_expired_transfer*: the scheduling half) ----
+
+/// Replays the recorded words, then continues with an unrecorded ChaCha tail: the rebuild goes on
+/// to build and sign a PCZT with the same generator, far beyond the draws the model covers.
+struct ReplayTail {
+    words: Vec<u64>,
+    pos: usize,
+    tail: rand_chacha::ChaCha8Rng,
+}
+impl RngCore for ReplayTail {
+    fn next_u32(&mut self) -> u32 {
+        self.next_u64() as u32
+    }
+    fn next_u64(&mut self) -> u64 {
+        let w = if self.pos < self.words.len() { self.words[self.pos] } else { self.tail.next_u64() };
+        self.pos += 1;
+        w
+    }
+    fn fill_bytes(&mut self, dest: &mut [u8]) {
+        for chunk in dest.chunks_mut(8) {
+            let b = self.next_u64().to_le_bytes();
+            chunk.copy_from_slice(&b[..chunk.len()]);
+        }
+    }
+    fn try_fill_bytes(&mut self, dest: &mut [u8]) -> Result<(), rand_core::Error> {
+        self.fill_bytes(dest);
+        Ok(())
+    }
+}
+impl CryptoRng for ReplayTail {}
+
+const RB_NOTES: usize = 8;
+struct RbCtx {
+    mock: CommitMock,
+    values: Vec<u64>,
+    nfs: Vec<[u8; 32]>,
+    seed: u64,
+}
+impl RbCtx {
+    fn new(seed: u64) -> Self {
+        let values: Vec<u64> = (0..RB_NOTES as u64).map(|i| 101_000 + 100_000 * i).collect();
+        let mock = CommitMock::new(seed, &values);
+        let nfs = mock.wallet_notes.iter().map(|n| n.nullifier(&mock.fvk).to_bytes()).collect();
+        RbCtx { mock, values, nfs, seed }
+    }
+}
+struct RbBackend<'a> {
+    ctx: &'a RbCtx,
+    tip: u32,
+    params: SchedulingParams,
+}
+impl<'a> MigrationBackend for RbBackend<'a> {
+    type Error = Infallible;
+    fn spendable_orchard_note_values(&self) -> Result<Vec<Zatoshis>, Infallible> {
+        Ok(self.ctx.values.iter().map(|v| Zatoshis::const_from_u64(*v)).collect())
+    }
+    fn chain_tip_height(&self) -> Result<BlockHeight, Infallible> {
+        Ok(bh(self.tip))
+    }
+    fn scheduling_params(&self) -> SchedulingParams {
+        self.params
+    }
+}
+impl<'a> MigrationCrypto for RbBackend<'a> {
+    type Error = Infallible;
+    fn orchard_fvk(&self) -> Option<&orchard::keys::FullViewingKey> {
+        Some(&self.ctx.mock.fvk)
+    }
+    fn account_derivation(&self) -> Result<Option<AccountDerivation>, Infallible> {
+        Ok(self.ctx.mock.account_derivation.clone())
+    }
+    fn resolve_wallet_note(&self, index: usize) -> Result<orchard::note::Note, Infallible> {
+        Ok(self.ctx.mock.wallet_notes[index])
+    }
+}
+
+/// A row of a rebuild scenario: a transfer (funded by wallet note `crossing`), optionally produced
+/// by a preparation mined at `funding`.
+#[derive(Clone, Copy)]
+struct RbRow {
+    sched: u32,
+    expiry: u32,
+    anchor: Option<u32>,
+    state: u8, // 1 signed, 2 proved, 4 mined
+    funding: Option<u32>,
+}
+/// transfers get ids 0..n-1 (crossing = id); producer preparations get ids 100 + id
+fn build_rebuild_state(ctx: &RbCtx, rows: &[RbRow], interval: u32) -> MigrationState {
+    let zat = |v: u64| Zatoshis::const_from_u64(v);
+    let cross: Vec<Zatoshis> = ctx.values.iter().map(|v| zat(v - 15_000)).collect();
+    let total: u64 = ctx.values.iter().sum();
+    let den = DenominationPlan::from_stored_parts(cross, zat(15_000), None, zat(0), zat(total), zat(total)).expect("denomination plan");
+    let mut txs: Vec<MigrationTransaction> = vec![];
+    for (i, row) in rows.iter().enumerate() {
+        if let Some(f) = row.funding {
+            let txid = shift_txid(1000 + i as u32);
+            txs.push(MigrationTransaction::from_parts(MigrationTransferId::new(100 + i as u32), MigrationTxKind::Preparation { layer: 0, index: i },
+                vec![7, 7, i as u8], vec![], bh(f.saturating_sub(5)), bh(0), None, txid, MigrationTxState::Mined { txid, height: bh(f) }, None, None, vec![[200 + i as u8; 32]], None));
+        }
+    }
+    for (i, row) in rows.iter().enumerate() {
+        let txid = shift_txid(i as u32);
+        let state = match row.state { 1 => MigrationTxState::Signed, 2 => MigrationTxState::Proved, _ => MigrationTxState::Mined { txid, height: bh(row.sched) } };
+        let deps = if row.funding.is_some() { vec![MigrationTransferId::new(100 + i as u32)] } else { vec![] };
+        txs.push(MigrationTransaction::from_parts(MigrationTransferId::new(i as u32), MigrationTxKind::Transfer { crossing: i }, vec![1, 2, 3, i as u8], deps,
+            bh(row.sched), bh(row.expiry), row.anchor.map(bh), txid, state, None, None, vec![ctx.nfs[i]], None));
+    }
+    MigrationState::from_parts(MigrationStatus::InProgress, den, PreparationPlan::from_parts(vec![], vec![]), txs, iv(interval), ReplanThreshold::new(50).unwrap())
+}
+
+/// One real rebuild of transfer `id` at chain tip `tip`; prints one `Rebuild` case.
+fn rebuild_step(oc: bool, ctx: &RbCtx, state: &mut MigrationState, interval: u32, id: u32, tip: u32, funding: u32, words: &[u64], external: bool, st: &mut Stats) -> bool {
+    let params = SchedulingParams::new_with_default_distributions(iv(interval));
+    let (mean, cap) = (params.transfer_delay().mean().get(), params.transfer_delay().cap().get());
+    let backend = RbBackend { ctx, tip, params };
+    let net = regtest_network(true);
+    let nu63 = 10u32;
+    // scheduled heights of the rows the chain base is taken over: transfers that are not mined (none is marked unsatisfiable)
+    let pend: Vec<u32> = state.transactions().iter()
+        .filter(|t| matches!(t.kind(), MigrationTxKind::Transfer { .. }) && !matches!(t.state(), MigrationTxState::Mined { .. }))
+        .map(|t| u32::from(t.scheduled_height())).collect();
+    let ds: Vec<u32> = words.iter().map(|w| delay_candidate(mean, *w)).collect();
+    let mut rng = ReplayTail { words: words.to_vec(), pos: 0, tail: rand_chacha::ChaCha8Rng::seed_from_u64(0x17 ^ tip as u64 ^ ((id as u64) << 40)) };
+    let tid = MigrationTransferId::new(id);
+    let res = catch(|| {
+        if external { rebuild_expired_transfer_unsigned(&net, &backend, state, tid, &mut rng).map(|_| ()) }
+        else { rebuild_expired_transfer(&net, &backend, &spending_key(ctx.seed), state, tid, &mut rng) }
+    });
+    let (o, okb) = match &res {
+        None => { st.out("rebuild:panic"); (PANIC.to_string(), false) }
+        Some(Ok(())) => {
+            let t = state.transactions().iter().find(|t| t.id() == tid).expect("row");
+            st.out("rebuild:ok");
+            (ok(format!("({}, {}, {})", u32::from(t.scheduled_height()), u32::from(t.expiry_height()), opt(t.anchor_boundary().map(|a| zu(u32::from(a) as u128))))), true)
+        }
+        Some(Err(RebuildError::NoCandidateAnchor)) => { st.out("rebuild:no-anchor"); ("(Err tt)".to_string(), false) }
+        Some(Err(e)) => { st.out("rebuild:other-error"); eprintln!("c17: rebuild error {:?}", e); return false; }
+    };
+    case(format!("Rebuild {} {} {} {} {} {} {} {} {} {}", boolc(oc), interval, cap, nu63, funding, tip,
+        list(pend.iter().map(|x| zu(*x as u128))), zl(words), list(ds.iter().map(|d| zu(*d as u128))), o));
+    okb
+}
+
+fn rebuild_words(r: &mut Rng, st: &mut Stats) -> Vec<u64> {
+    // an adversarial or ChaCha prefix followed by ChaCha words: 48 recorded words in all
+    let k = r.below(7) as usize;
+    let mut w = stream(r, st, k);
+    while w.len() < 48 { w.push(r.u64()); }
+    w
+}
+
+const EXP_M: u32 = 34_560;
+fn gen_rebuilds(r: &mut Rng, oc: bool, ctx: &RbCtx, st: &mut Stats, singles_stride: u32, cohorts: usize) {
+    // single rebuilds: tips at offsets -600..0 around multiples of the expiry modulus
+    let mut off = 0i64;
+    let mut phase = r.below(singles_stride as u64) as i64;
+    while off <= 600 {
+        let o = off + phase;
+        phase = 0;
+        if o > 600 { break; }
+        let mult = r.range(30, 100) as u32 * EXP_M;
+        let tip = (mult as i64 - o) as u32;
+        let interval = if r.chance(1, 6) { *r.pick(&[12u32, 100, 72]) } else { 144 };
+        let old_sched = tip - 2 * EXP_M - r.below(1000) as u32;
+        let funding = if r.chance(1, 3) { Some(tip - r.below(5 * interval as u64 + 20) as u32) } else { None };
+        let rows = [RbRow { sched: old_sched, expiry: u32::from(z318::expiry_height(bh(old_sched))).min(tip), anchor: Some(old_sched - old_sched % interval - interval), state: 1, funding }];
+        let mut state = build_rebuild_state(ctx, &rows, interval);
+        let words = rebuild_words(r, st);
+        rebuild_step(oc, ctx, &mut state, interval, 0, tip, funding.unwrap_or(10), &words, r.chance(1, 3), st);
+        off += singles_stride as i64;
+    }
+    // cohorts: 2..8 transfers sharing an expiry, rebuilt back to back at one tip
+    for _ in 0..cohorts {
+        let n = r.range(2, RB_NOTES as u64) as usize;
+        let interval = if r.chance(1, 8) { 100 } else { 144 };
+        let tip = match r.below(4) { 0 => r.range(30, 100) as u32 * EXP_M - r.below(700) as u32, _ => r.range(1_100_000, 3_000_000) as u32 };
+        let base_old = tip - 2 * EXP_M - 2000;
+        let funding = if r.chance(1, 4) { Some(tip - r.below(700) as u32) } else { None };
+        let mut rows: Vec<RbRow> = vec![];
+        for i in 0..n {
+            let sched = base_old + 60 * i as u32 + r.below(50) as u32;
+            // an already mined sibling and a still-pending later one now and then
+            let state = if i > 0 && r.chance(1, 10) { 4 } else { 1 };
+            rows.push(RbRow { sched, expiry: u32::from(z318::expiry_height(bh(sched))).min(tip), anchor: Some(sched - sched % interval - interval), state, funding });
+        }
+        if r.chance(1, 4) {
+            // a live transfer scheduled ahead of the tip: the chain base starts there
+            let sched = tip + r.range(1, 900) as u32;
+            if rows.len() < RB_NOTES { rows.push(RbRow { sched, expiry: u32::from(z318::expiry_height(bh(sched))), anchor: Some(sched - sched % interval - interval), state: 1, funding: None }); }
+        }
+        let mut state = build_rebuild_state(ctx, &rows, interval);
+        for i in 0..n {
+            if rows[i].state == 4 { continue; }
+            let words = rebuild_words(r, st);
+            if !rebuild_step(oc, ctx, &mut state, interval, i as u32, tip, funding.unwrap_or(10), &words, r.chance(1, 3), st) { break; }
+        }
+    }
+}
+
 // ---- main ----------------------------------------------------------------------------------
 
 fn anchor_out(o: Option<(Option<BlockHeight>, usize)>, st: &mut Stats, what: &str) -> String {
@@ -898,6 +1104,13 @@ fn main() {
     // --- schedule shifts: sequences of late wake-ups through advance_migration ---
     for _ in 0..a.budget(500, 6_000) {
         gen_shift_sequence(&mut r, oc, &mut st);
+    }
+
+    // --- rebuilds of expired transfers: singles around the expiry-modulus multiples, cohorts at one tip ---
+    {
+        let ctx = RbCtx::new(a.seed ^ 0x17);
+        let (stride, cohorts) = if big { (1, 400) } else { (4, 60) };
+        gen_rebuilds(&mut r, oc, &ctx, &mut st, stride, cohorts);
     }
 
     // --- wake-ups ---
